@@ -210,7 +210,9 @@ class AddSubtractComp(ExplicitComponent):
                                                     f'equation but had different units '
                                                     f'({prev_units} vs. {units}.')
 
-            sf = scaling_factors[i]
+            # an input that appears more than once contributes the sum of its scaling factors
+            sf = sum(scaling_factors[j] for j, name in enumerate(input_names)
+                     if name == input_name)
             self.declare_partials([output_name], [input_name],
                                   val=sf * sp.eye(vec_size * length, format='csc'))
             self._input_names[input_name] = {'vec_size': vec_size, 'length': length,
